@@ -1,6 +1,7 @@
 import TssVerif.Core.Wire
 import TssVerif.Core.Hash
 import TssVerif.Core.Commit
+import TssVerif.Core.OpsCrypto
 /-! Dispatch of the line protocol: `op arg…` ↦ canonical result string. Unknown or malformed
 lines give `bad-op` (never a default value). -/
 namespace TssVerif.Ops
@@ -54,6 +55,7 @@ def run (line : String) : String :=
     match pList pInt xs with
     | some l => (parseSecretsCfg curParse l).render (rListList rInt)
     | none => "bad-op"
+  | op :: args => (OpsCrypto.run op args).getD "bad-op"
   | _ => "bad-op"
 
 end TssVerif.Ops
